@@ -102,4 +102,101 @@ partial def go (s : St) : List String → Verdict
 
 def runCase (body : List String) : Verdict := go {} body
 
+/-! ### receive pools of buffered sockets (transcripts of harness scen/sockops.cpp) -/
+
+structure RSt where
+  n : Nat := 0
+  size : Nat := 0
+  rx : RxState := { pool := create 0 0, held := [] }
+  map : List (Nat × Nat) := []     -- impl ordinal ↦ model id
+  heldObs : List Nat := []         -- impl ordinals the harness holds (observation side)
+  tags : List String := []
+
+def findRx : List String → Option (Nat × Nat)
+  | "rx" :: c :: z :: _ => do pure (← c.toNat?, ← z.toNat?)
+  | _ :: t => findRx t
+  | [] => none
+
+partial def goRx (s : RSt) : List String → Verdict
+  | [] => { tags := s.tags }
+  | l :: rest =>
+    let w := words l
+    match w with
+    | "tcp" :: _ | "udp" :: _ =>
+      -- `... rx <count> <size>`
+      match findRx w with
+      | some (n, size) => goRx { s with n := n, size := size, rx := { pool := create n size, held := [] } } rest
+      | none => Verdict.corr s!"no rx parameters in {l}"
+    | [op, _T] =>
+      if op == "recvhold" ∨ op == "recvfromhold" then
+        -- collect observations up to the result
+        let obsLines := rest.takeWhile (fun x => (obs? x).isSome)
+        let rest' := rest.dropWhile (fun x => (obs? x).isSome)
+        let obs := obsLines.filterMap obs?
+        match obs.find? (fun o => o.head? == some "crash" ∨ o.head? == some "hang") with
+        | some o => Verdict.spec (" ".intercalate o) s.tags
+        | none =>
+        match obs.find? (fun o => o.head? == some "ret" ∨ o.head? == some "throw") with
+        | some ["ret", "held", ord, size] =>
+          match ord.toNat?, size.toNat? with
+          | some ord, some size =>
+            if s.heldObs.contains ord then Verdict.spec s!"receive handed out buffer {ord} that the user still holds" s.tags
+            else if s.n > 0 ∧ s.heldObs.length ≥ s.n then Verdict.spec s!"receive succeeded with {s.heldObs.length} of N={s.n} buffers held" s.tags
+            else
+              match rx s.rx.pool s.size (.value size) with
+              | .value b q =>
+                let consistent := match lookupId s.map b, lookupOrd s.map ord with
+                  | some o', _ => o' == ord
+                  | none, some _ => false
+                  | none, none => true
+                if !consistent then Verdict.corr s!"model recycles a different buffer than the implementation ({ord})" s.tags
+                else goRx { s with rx := { pool := q, held := s.rx.held ++ [b] },
+                                   map := if (lookupId s.map b).isSome then s.map else (ord, b) :: s.map,
+                                   heldObs := s.heldObs ++ [ord], tags := "rx.value" :: s.tags } rest'
+              | _ => Verdict.corr s!"model: out of buffers, implementation: received into buffer {ord}" s.tags
+          | _, _ => Verdict.corr "bad ret held"
+        | some ["ret", "none"] =>
+          -- UDP: the wait comes before the buffer is taken (SocketBufferedImpl::ReceiveFrom(timeout))
+          if op == "recvfromhold" then goRx { s with tags := "rx.nothing" :: s.tags } rest'
+          else if s.n > 0 ∧ s.heldObs.length ≥ s.n then Verdict.corr "model: out of buffers, implementation: timeout" s.tags
+          else match rx s.rx.pool s.size .nothing with
+            | .nothing q => goRx { s with rx := { s.rx with pool := q }, tags := "rx.nothing" :: s.tags } rest'
+            | _ => Verdict.corr "model disagrees on timeout" s.tags
+        | some ("throw" :: kind) =>
+          if kind == ["outofbuffers"] then
+            if s.n = 0 then Verdict.spec "socket with unlimited receive buffers refused to receive" s.tags
+            else if s.heldObs.length < s.n then
+              Verdict.spec s!"receive refused ('out of buffers') while the user holds only {s.heldObs.length} of N={s.n}: a buffer was not returned on some path" s.tags
+            else match rx s.rx.pool s.size .exn with
+              | .outOfBuffers => goRx { s with tags := "rx.full" :: s.tags } rest'
+              | _ => Verdict.corr "model has a buffer, implementation is out of buffers" s.tags
+          else if op == "recvfromhold" ∧ !(obs.any fun o => o.take 2 == ["sys", "recv"]) then
+            -- UDP: the wait failed before any buffer was taken
+            goRx { s with tags := "rx.exn" :: s.tags } rest'
+          else
+            match rx s.rx.pool s.size .exn with
+            | .exn q => goRx { s with rx := { s.rx with pool := q }, tags := "rx.exn" :: s.tags } rest'
+            | _ => Verdict.corr "model: out of buffers, implementation: receive failed otherwise" s.tags
+        | _ => Verdict.corr s!"missing result after {l}" s.tags
+      else if op == "dropbuf" then
+        match rest with
+        | o :: rest' =>
+          match obs? o with
+          | some ["dropped", ord] =>
+            match ord.toNat? with
+            | some ord =>
+              match lookupOrd s.map ord with
+              | some b =>
+                let rx' := rxStep s.size s.rx (.drop b)
+                goRx { s with rx := rx', heldObs := s.heldObs.erase ord, tags := "rx.drop" :: s.tags } rest'
+              | none => Verdict.corr s!"dropped unknown buffer {ord}" s.tags
+            | none => Verdict.corr "bad dropped"
+          | _ => goRx s rest     -- nothing was held
+        | [] => goRx s rest
+      else goRx s rest
+    | "->" :: "crash" :: x => Verdict.spec ("crash: " ++ " ".intercalate x) s.tags
+    | _ => goRx s rest
+
+def runCaseRx (body : List String) : Verdict := goRx {} body
+
 end SockModel.Drive.C10
